@@ -8,10 +8,10 @@
   master theorem reads: whenever `okRun c` holds, the C01 reference checker accepts `run01 c`.
   `okRun` is decidable and is evaluated by the driver on every generated case.
 -/
-import Rbgp.Export.ConvHistory
+import Rbgp.Export.ConvAHistory
 import Rbgp.Export.Spec01
 namespace Rbgp.Export.Conv
-open Rbgp.Export
+open Rbgp.Export Rbgp.Export.ConvA
 
 /-! ## decidable versions of the hypotheses -/
 
@@ -89,6 +89,88 @@ theorem headsMatchB_sound {V : View} (hw : V.wf) {cs : List (Change Net)} (h : h
       simp only [View.paths, hg, Option.map_some, Option.getD_some]
       exact this
 
+/-! ### the same for an add-path session -/
+
+def admAB (V : View) (u : Change Net) : Bool :=
+  V.all (fun x => (!(decide (x.id = u.destId)) || decide (x.net = u.net)) &&
+                  (!(decide (x.net = u.net)) || decide (x.id = u.destId))) &&
+  (u.anyChanged || decide (V.paths u.net = u.paths)) &&
+  u.paths.all (fun p => (V.paths u.net).all (fun q =>
+    !(decide (p.pid = q.pid)) || decide (u.replaced = some p.pid) || decide (p = q))) &&
+  decide ((u.paths.map (·.pid)).Nodup)
+
+theorem admAB_sound {V : View} {u : Change Net} (h : admAB V u = true) : AdmA V u false := by
+  simp only [admAB, Bool.and_eq_true, List.all_eq_true, Bool.or_eq_true, Bool.not_eq_true',
+    decide_eq_false_iff_not, decide_eq_true_eq] at h
+  obtain ⟨⟨⟨hid, hany⟩, hsame⟩, hnd⟩ := h
+  refine ⟨?_, ?_, ?_, ?_, hnd⟩
+  · intro x hx hxi
+    rcases (hid x hx).1 with h1 | h1
+    · exact absurd hxi h1
+    · exact h1
+  · intro x hx hxn
+    rcases (hid x hx).2 with h1 | h1
+    · exact absurd hxn h1
+    · exact h1
+  · intro hb
+    rcases hany with h2 | h2
+    · rw [hb] at h2; cases h2
+    · exact h2
+  · intro _ p hp q hq hpq hrep
+    rcases hsame p hp q hq with (h1 | h1) | h1
+    · exact absurd hpq h1
+    · exact absurd h1 hrep
+    · exact h1
+
+def snapshotAB (cs : List (Change Net)) : Bool :=
+  snapshotB cs && cs.all (fun c => c.anyChanged && decide ((c.paths.map (·.pid)).Nodup))
+
+theorem snapshotAB_sound {cs : List (Change Net)} (h : snapshotAB cs = true) : SnapshotA cs := by
+  simp only [snapshotAB, Bool.and_eq_true, List.all_eq_true, decide_eq_true_eq] at h
+  exact ⟨snapshotB_sound h.1, fun c hc => (h.2 c hc).1, fun c hc => (h.2 c hc).2⟩
+
+def snapMatchesAB (V : View) (cs : List (Change Net)) : Bool :=
+  snapshotAB cs && cs.all (fun c => decide (V.idOf c.net = some c.destId)) &&
+  V.all (fun x => cs.any (fun c => decide (c.net = x.net)))
+
+theorem snapMatchesAB_sound {V : View} {cs : List (Change Net)} (h : snapMatchesAB V cs = true) : SnapMatchesA V cs := by
+  simp only [snapMatchesAB, Bool.and_eq_true, List.all_eq_true, decide_eq_true_eq, List.any_eq_true] at h
+  exact ⟨snapshotAB_sound h.1.1, h.1.2, h.2⟩
+
+def pathsMatchB (V : View) (cs : List (Change Net)) : Bool :=
+  V.all (fun x => decide ((viewOf cs).paths x.net = x.paths)) &&
+  cs.all (fun c => decide (V.paths c.net = c.paths))
+
+theorem pathsMatchB_sound {V : View} (hw : V.wf) {cs : List (Change Net)} (h : pathsMatchB V cs = true) (net : Net) :
+    V.paths net = (viewOf cs).paths net := by
+  simp only [pathsMatchB, Bool.and_eq_true, List.all_eq_true, decide_eq_true_eq] at h
+  cases hf : V.find net with
+  | some x =>
+    have hxm := View.find_mem V net x hf
+    have := h.1 x hxm.1
+    rw [hxm.2] at this
+    simp only [View.paths, hf, Option.map_some, Option.getD_some]
+    exact this.symm
+  | none =>
+    have hp : V.paths net = [] := by simp [View.paths, hf]
+    rw [hp]
+    cases hg : (viewOf cs).find net with
+    | none => simp [View.paths, hg]
+    | some e =>
+      obtain ⟨c, hc, hcn, rfl⟩ := viewOf_find cs net e hg
+      have := h.2 c hc
+      rw [hcn, hp] at this
+      simp only [View.paths, hg, Option.map_some, Option.getD_some]
+      exact this
+
+/-- the check of a delivered change / of a refresh snapshot, by session mode -/
+def admChk (mx : Nat) (V : View) (u : Change Net) : Bool := if mx = 1 then admissibleB V u else admAB V u
+def snapChk (mx : Nat) (cs : List (Change Net)) : Bool := if mx = 1 then snapshotB cs else snapshotAB cs
+def snapMatchesChk (mx : Nat) (V : View) (cs : List (Change Net)) : Bool :=
+  if mx = 1 then snapMatchesB V cs else snapMatchesAB V cs
+def viewMatchChk (mx : Nat) (V : View) (cs : List (Change Net)) : Bool :=
+  if mx = 1 then headsMatchB V cs else pathsMatchB V cs
+
 /-! ## the ghost that accompanies a run -/
 
 structure Gh where
@@ -97,10 +179,10 @@ structure Gh where
   stale : Bool
 
 def ghostEv (rib : Rib) (mx : Nat) (g : Gh) : Ev → Gh
-  | .change c => ⟨g.V.update c.net c.destId c.paths, g.ok && admissibleB g.V c, g.stale⟩
+  | .change c => ⟨g.V.update c.net c.destId c.paths, g.ok && admChk mx g.V c, g.stale⟩
   | .softReset =>
       let cs := rib.flatMap (fun s => s.collect (collectLimit mx))
-      ⟨viewRefresh g.V cs, g.ok && snapMatchesB g.V cs, false⟩
+      ⟨viewRefresh g.V cs, g.ok && snapMatchesChk mx g.V cs, false⟩
 
 def ghostDeliverN (rib : Rib) (mx : Nat) : Nat → List Ev → Gh → Gh
   | 0, _, g => g
@@ -136,13 +218,18 @@ theorem ghostStep_ok (c : Case01) (w : World) (g : Gh) (op : Op) (h : (ghostStep
 
 /-! ## the invariant of a run -/
 
-/-- `J w g`: as long as the ghost says ok, the session state satisfies the session invariant for the
-    ghost's view, and unless a policy change is waiting for its soft reset, everything in the view was
-    last processed under the current policy -/
-def J (w : World) (g : Gh) : Prop :=
-  g.ok = true →
-    w.llgrSrcs = [] ∧
-    ∃ E, SInv E g.V w.st ∧ (g.stale = false → ∀ x ∈ g.V, E x.net = w.st.sess.exp)
+/-- the session invariant in the session's mode, with the view `V`; unless a policy change is
+    waiting for its soft reset (`stale`), everything in the view was last processed under the
+    current policy -/
+def SI (mx : Nat) (V : View) (st : SessState) (stale : Bool) : Prop :=
+  st.sess.max = mx ∧
+  ((mx = 1 ∧ ∃ E, SInv E V st ∧ (stale = false → ∀ x ∈ V, E x.net = st.sess.exp)) ∨
+   (mx ≠ 1 ∧ ∃ E, SInvA E V st ∧ (stale = false → ∀ x ∈ V, ∀ w, E x.net w = st.sess.exp)))
+
+/-- `J mx w g`: as long as the ghost says ok, the session state satisfies the session invariant for
+    the ghost's view -/
+def J (mx : Nat) (w : World) (g : Gh) : Prop :=
+  g.ok = true → w.llgrSrcs = [] ∧ SI mx g.V w.st g.stale
 
 theorem withFlags_nil (c : Change Net) : withFlags [] c = c := by
   simp only [withFlags, List.contains_nil, Bool.or_false]
@@ -152,13 +239,130 @@ theorem withFlags_nil (c : Change Net) : withFlags [] c = c := by
     | cons p rest ih => simp only [List.map_cons, ih]
   rw [this]
 
-theorem deliver_inv (rib : Rib) (n : Nat) :
+/-- a skipped or processed change leaves everything in the view current (non-add-path) -/
+theorem stepE_current (E : Net → Exp) (V : View) (u : Change Net) (e : Exp) (ha : Admissible V u)
+    (hc : ∀ x ∈ V, E x.net = e) : ∀ x ∈ V.update u.net u.destId u.paths, stepE E u e x.net = e := by
+  intro x hx
+  simp only [stepE]
+  by_cases hb : u.bestChanged = true
+  · simp only [hb, if_true, setE]
+    split
+    · rfl
+    · rename_i hne
+      rcases (View.mem_update _ _ _ _ _).mp hx with ⟨hv, _⟩ | ⟨_, rfl⟩
+      · exact hc x hv
+      · exact absurd rfl hne
+  · simp only [hb, Bool.false_eq_true, if_false]
+    rcases (View.mem_update _ _ _ _ _).mp hx with ⟨hv, _⟩ | ⟨hps, rfl⟩
+    · exact hc x hv
+    · have hbf : u.bestChanged = false := by cases h : u.bestChanged <;> simp_all
+      have hh := ha.bestSame hbf
+      cases hf : V.find u.net with
+      | none =>
+        simp only [View.paths, hf, Option.map_none, Option.getD_none, List.head?_nil] at hh
+        cases hup : u.paths with
+        | nil => exact absurd hup hps
+        | cons a r => rw [hup] at hh; simp at hh
+      | some y =>
+        have hym := View.find_mem V u.net y hf
+        have := hc y hym.1
+        rw [hym.2] at this; exact this
+
+/-- one delivered change -/
+theorem si_change (mx : Nat) (V : View) (st : SessState) (stale : Bool) (h : SI mx V st stale)
+    (c0 : Change Net) (hchk : admChk mx V c0 = true) (rib : Rib) (rest : List Ev) :
+    SI mx (V.update c0.net c0.destId c0.paths) (st.deliver rib rest [] (.change c0)) stale := by
+  obtain ⟨hmx, hmode⟩ := h
+  simp only [SessState.deliver, withFlags_nil]
+  refine ⟨hmx, ?_⟩
+  rcases hmode with ⟨h1, E, S, hcur⟩ | ⟨h1, E, S, hcur⟩
+  · left
+    simp only [admChk, h1, if_true] at hchk
+    have hadm := admissibleB_sound hchk
+    have S1 : SInv E V { st with owner := (c0.destId, c0.net) :: st.owner.filter (·.1 ≠ c0.destId),
+                                 reuse := if (match st.owner.find? (·.1 = c0.destId) with
+                                              | some (_, n) => n != c0.net
+                                              | none => false) then st.reuse + 1 else st.reuse } :=
+      ⟨S.inv, S.buf, S.plain, S.mok⟩
+    have hstep := sinv_handle' S1 c0 hadm false
+    exact ⟨h1, _, hstep, fun hs => stepE_current E V c0 st.sess.exp hadm (hcur hs)⟩
+  · right
+    simp only [admChk, h1, if_false] at hchk
+    have hadm := admAB_sound hchk
+    have S1 : SInvA E V { st with owner := (c0.destId, c0.net) :: st.owner.filter (·.1 ≠ c0.destId),
+                                  reuse := if (match st.owner.find? (·.1 = c0.destId) with
+                                               | some (_, n) => n != c0.net
+                                               | none => false) then st.reuse + 1 else st.reuse } :=
+      ⟨S.inv, S.buf, S.mok⟩
+    have hstep := sinv_handleA S1 c0 false hadm
+    exact ⟨h1, _, hstep, fun hs => stepEA_current E V S.inv.vwf c0 st.sess.exp false hadm S.inv.ap (hcur hs)⟩
+
+/-- one delivered soft reset / route refresh, the session having caught up with the RIB -/
+theorem si_softReset (mx : Nat) (V : View) (st : SessState) (stale : Bool) (h : SI mx V st stale)
+    (rib : Rib) (rest : List Ev)
+    (hchk : snapMatchesChk mx V (rib.flatMap (fun s => s.collect (collectLimit mx))) = true) :
+    SI mx (viewRefresh V (rib.flatMap (fun s => s.collect (collectLimit mx))))
+      (st.deliver rib rest [] .softReset) false := by
+  obtain ⟨hmx, hmode⟩ := h
+  simp only [SessState.deliver]
+  have hsess : (if rest.any Ev.isChange then { st with overtaken := st.overtaken + 1 } else st).sess = st.sess := by
+    split <;> rfl
+  have hsnap : snapshotOf (if rest.any Ev.isChange then { st with overtaken := st.overtaken + 1 } else st).sess rib =
+      rib.flatMap (fun s => s.collect (collectLimit mx)) := by
+    simp only [snapshotOf, hsess, hmx]
+  have h2 : (refreshS (if rest.any Ev.isChange then { st with overtaken := st.overtaken + 1 } else st)
+      (rib.flatMap (fun s => s.collect (collectLimit mx)))).sess = st.sess := by
+    simp only [refreshS]; rw [sess_foldHandle, hsess]
+  rw [refreshS_eq, hsnap]
+  refine ⟨by rw [h2]; exact hmx, ?_⟩
+  rcases hmode with ⟨h1, E, S, _⟩ | ⟨h1, E, S, _⟩
+  · left
+    subst h1
+    simp only [snapMatchesChk, if_true] at hchk
+    have hm := snapMatchesB_sound hchk
+    have S1 : SInv E V (if rest.any Ev.isChange then { st with overtaken := st.overtaken + 1 } else st) := by
+      split
+      · exact ⟨S.inv, S.buf, S.plain, S.mok⟩
+      · exact S
+    have hstep := sinv_refresh S1 _ hm
+    refine ⟨rfl, _, hstep, ?_⟩
+    intro _ x hx
+    rw [h2, hsess]
+    exact refresh_current V _ hm st.sess.exp x hx
+  · right
+    simp only [snapMatchesChk, h1, if_false] at hchk
+    have hm := snapMatchesAB_sound hchk
+    have S1 : SInvA E V (if rest.any Ev.isChange then { st with overtaken := st.overtaken + 1 } else st) := by
+      split
+      · exact ⟨S.inv, S.buf, S.mok⟩
+      · exact S
+    have hstep := sinv_refreshA S1 _ hm
+    refine ⟨h1, _, hstep, ?_⟩
+    intro _ x hx w
+    rw [h2, hsess]
+    exact refresh_currentA V _ hm st.sess.exp x hx w
+
+theorem si_flush (mx : Nat) (V : View) (st : SessState) (stale : Bool) (h : SI mx V st stale) :
+    SI mx V st.flush stale := by
+  obtain ⟨hmx, hmode⟩ := h
+  refine ⟨hmx, ?_⟩
+  rcases hmode with ⟨h1, E, S, hcur⟩ | ⟨h1, E, S, hcur⟩
+  · exact Or.inl ⟨h1, E, sinv_flush S, hcur⟩
+  · exact Or.inr ⟨h1, E, sinv_flushA S, hcur⟩
+
+theorem si_policy (mx : Nat) (V : View) (st : SessState) (stale : Bool) (h : SI mx V st stale) (pol : Option Policy) :
+    SI mx V { st with sess := { st.sess with policy := pol } } true := by
+  obtain ⟨hmx, hmode⟩ := h
+  refine ⟨hmx, ?_⟩
+  rcases hmode with ⟨h1, E, S, _⟩ | ⟨h1, E, S, _⟩
+  · exact Or.inl ⟨h1, E, ⟨S.inv, S.buf, S.plain, S.mok⟩, fun h => by cases h⟩
+  · exact Or.inr ⟨h1, E, sinv_policyA S pol, fun h => by cases h⟩
+
+theorem deliver_inv (rib : Rib) (mx : Nat) (n : Nat) :
     ∀ (q : List Ev) (st : SessState) (g : Gh),
-      (g.ok = true → ∃ E, SInv E g.V st ∧ (g.stale = false → ∀ x ∈ g.V, E x.net = st.sess.exp)) →
-      (ghostDeliverN rib 1 n q g).ok = true →
-      ∃ E, SInv E (ghostDeliverN rib 1 n q g).V (deliverN rib [] n q st).2 ∧
-        ((ghostDeliverN rib 1 n q g).stale = false →
-          ∀ x ∈ (ghostDeliverN rib 1 n q g).V, E x.net = (deliverN rib [] n q st).2.sess.exp) := by
+      (g.ok = true → SI mx g.V st g.stale) →
+      (ghostDeliverN rib mx n q g).ok = true →
+      SI mx (ghostDeliverN rib mx n q g).V (deliverN rib [] n q st).2 (ghostDeliverN rib mx n q g).stale := by
   induction n with
   | zero => intro q st g hJ hok; exact hJ hok
   | succ n ih =>
@@ -169,107 +373,47 @@ theorem deliver_inv (rib : Rib) (n : Nat) :
       simp only [ghostDeliverN, deliverN] at hok ⊢
       apply ih rest _ _ _ hok
       intro hok1
-      have hok0 := ghostEv_ok rib 1 g e hok1
-      obtain ⟨E, S, hcur⟩ := hJ hok0
+      have hok0 := ghostEv_ok rib mx g e hok1
+      have h := hJ hok0
       cases e with
       | change c0 =>
         simp only [ghostEv, Bool.and_eq_true] at hok1 ⊢
-        have hadm := admissibleB_sound hok1.2
-        simp only [SessState.deliver, withFlags_nil]
-        -- the bookkeeping fields do not matter
-        have S1 : SInv E g.V { st with owner := (c0.destId, c0.net) :: st.owner.filter (·.1 ≠ c0.destId),
-                                       reuse := if (match st.owner.find? (·.1 = c0.destId) with
-                                                    | some (_, n) => n != c0.net
-                                                    | none => false) then st.reuse + 1 else st.reuse } :=
-          ⟨S.inv, S.buf, S.plain, S.mok⟩
-        have hstep := sinv_handle' S1 c0 hadm false
-        refine ⟨_, hstep, ?_⟩
-        intro hs x hx
-        have hc := hcur hs
-        show stepE E c0 st.sess.exp x.net = st.sess.exp
-        simp only [stepE]
-        by_cases hb : c0.bestChanged = true
-        · simp only [hb, if_true, setE]
-          split
-          · rfl
-          · rename_i hne
-            rcases (View.mem_update _ _ _ _ _).mp hx with ⟨hv, _⟩ | ⟨_, rfl⟩
-            · exact hc x hv
-            · exact absurd rfl hne
-        · simp only [hb, Bool.false_eq_true, if_false]
-          rcases (View.mem_update _ _ _ _ _).mp hx with ⟨hv, _⟩ | ⟨hps, rfl⟩
-          · exact hc x hv
-          · have hbf : c0.bestChanged = false := by cases h : c0.bestChanged <;> simp_all
-            have hh := hadm.bestSame hbf
-            cases hf : g.V.find c0.net with
-            | none =>
-              simp only [View.paths, hf, Option.map_none, Option.getD_none, List.head?_nil] at hh
-              cases hup : c0.paths with
-              | nil => exact absurd hup hps
-              | cons a r => rw [hup] at hh; simp at hh
-            | some y =>
-              have hym := View.find_mem g.V c0.net y hf
-              have := hc y hym.1
-              rw [hym.2] at this; exact this
+        exact si_change mx g.V st g.stale h c0 hok1.2 rib rest
       | softReset =>
         simp only [ghostEv, Bool.and_eq_true] at hok1 ⊢
-        have hm := snapMatchesB_sound hok1.2
-        simp only [SessState.deliver]
-        have S1 : SInv E g.V (if rest.any Ev.isChange then { st with overtaken := st.overtaken + 1 } else st) := by
-          split
-          · exact ⟨S.inv, S.buf, S.plain, S.mok⟩
-          · exact S
-        have hsess : (if rest.any Ev.isChange then { st with overtaken := st.overtaken + 1 } else st).sess = st.sess := by
-          split <;> rfl
-        have hsnap : snapshotOf (if rest.any Ev.isChange then { st with overtaken := st.overtaken + 1 } else st).sess rib =
-            rib.flatMap (fun s => s.collect (collectLimit 1)) := by
-          simp only [snapshotOf, hsess, S.plain]
-        rw [refreshS_eq, hsnap]
-        have hstep := sinv_refresh S1 _ hm
-        refine ⟨_, hstep, ?_⟩
-        intro _ x hx
-        have h2 : (refreshS (if rest.any Ev.isChange then { st with overtaken := st.overtaken + 1 } else st)
-            (rib.flatMap (fun s => s.collect (collectLimit 1)))).sess = st.sess := by
-          simp only [refreshS]; rw [sess_foldHandle, hsess]
-        rw [h2, hsess]
-        exact refresh_current g.V _ hm st.sess.exp x hx
+        exact si_softReset mx g.V st g.stale h rib rest hok1.2
 
 theorem sess_flush' (st : SessState) : st.flush.sess = st.sess := rfl
 
-theorem step_inv (c : Case01) (hm : c.sess.max = 1) (w : World) (g : Gh) (hJ : J w g) (op : Op) :
-    J (World.step c w op) (ghostStep c w g op) := by
+theorem step_inv (c : Case01) (w : World) (g : Gh) (hJ : J c.sess.max w g) (op : Op) :
+    J c.sess.max (World.step c w op) (ghostStep c w g op) := by
   intro hok
   have hok0 := ghostStep_ok c w g op hok
-  obtain ⟨hl, E, S, hcur⟩ := hJ hok0
+  obtain ⟨hl, S⟩ := hJ hok0
   cases op with
-  | ann s p rpid a nh => exact ⟨by simp [World.step, hl], E, by simpa [World.step, ghostStep] using S, by simpa [World.step, ghostStep] using hcur⟩
-  | wd s p rpid => exact ⟨by simp [World.step, hl], E, by simpa [World.step, ghostStep] using S, by simpa [World.step, ghostStep] using hcur⟩
-  | down s => exact ⟨by simp [World.step, hl], E, by simpa [World.step, ghostStep] using S, by simpa [World.step, ghostStep] using hcur⟩
+  | ann s p rpid a nh => exact ⟨by simp [World.step, hl], by simpa [World.step, ghostStep] using S⟩
+  | wd s p rpid => exact ⟨by simp [World.step, hl], by simpa [World.step, ghostStep] using S⟩
+  | down s => exact ⟨by simp [World.step, hl], by simpa [World.step, ghostStep] using S⟩
   | llgr s => simp [ghostStep] at hok
-  | nh a up => exact ⟨by simp [World.step, hl], E, by simpa [World.step, ghostStep] using S, by simpa [World.step, ghostStep] using hcur⟩
+  | nh a up => exact ⟨by simp [World.step, hl], by simpa [World.step, ghostStep] using S⟩
   | reset k =>
-    refine ⟨by simp [World.step, hl], E, ?_, ?_⟩
-    · simp only [World.step, ghostStep]
-      exact ⟨S.inv, S.buf, S.plain, S.mok⟩
-    · intro h; simp [ghostStep] at h
+    refine ⟨by simp [World.step, hl], ?_⟩
+    simp only [World.step, ghostStep]
+    exact si_policy _ _ _ _ S _
   | deliver n =>
-    simp only [World.step, ghostStep, hl, hm] at hok ⊢
+    simp only [World.step, ghostStep, hl] at hok ⊢
     refine ⟨trivial, ?_⟩
-    exact deliver_inv w.rib n w.queue w.st g (fun _ => ⟨E, S, hcur⟩) hok
+    exact deliver_inv w.rib c.sess.max n w.queue w.st g (fun _ => S) hok
   | flush =>
-    refine ⟨by simp [World.step, hl], E, ?_, ?_⟩
-    · simp only [World.step, ghostStep]
-      have := sinv_flush S
-      exact ⟨this.inv, this.buf, this.plain, this.mok⟩
-    · intro hs x hx
-      have := hcur (by simpa [ghostStep] using hs) x (by simpa [ghostStep] using hx)
-      simpa [World.step, sess_flush'] using this
+    refine ⟨by simp [World.step, hl], ?_⟩
+    simp only [World.step, ghostStep]
+    exact si_flush _ _ _ _ S
 
-theorem run_inv_WG (c : Case01) (hm : c.sess.max = 1) (ops : List Op) (s : World × Gh) (hJ : J s.1 s.2) :
-    J (ops.foldl (stepWG c) s).1 (ops.foldl (stepWG c) s).2 := by
+theorem run_inv_WG (c : Case01) (ops : List Op) (s : World × Gh) (hJ : J c.sess.max s.1 s.2) :
+    J c.sess.max (ops.foldl (stepWG c) s).1 (ops.foldl (stepWG c) s).2 := by
   induction ops generalizing s with
   | nil => exact hJ
-  | cons op rest ih => exact ih _ (step_inv c hm s.1 s.2 hJ op)
+  | cons op rest ih => exact ih _ (step_inv c s.1 s.2 hJ op)
 
 theorem fold_fst (c : Case01) (ops : List Op) (s : World × Gh) :
     (ops.foldl (stepWG c) s).1 = ops.foldl (World.step c) s.1 := by
@@ -298,17 +442,18 @@ def finalWG (c : Case01) : World × Gh :=
 def liveNetsOf (c : Case01) : List Net :=
   (Spec01.liveAnn c.srcs (c.pre ++ c.ops) []).filterMap (fun x => (c.pfxs[x.2.1]?).map (·.1))
 
-/-- The hypotheses of the session-level theorems, computed along the run: a session without
-    add-path, no LLGR stale period, a consistent initial snapshot, every delivered change admissible
-    for the view, every soft reset run on a snapshot of the view's destinations, no policy change left
-    without its soft reset, and at the end a consistent RIB snapshot whose best paths are the view's
-    and whose prefixes are announced by some source. -/
+/-- The hypotheses of the session-level theorems, computed along the run (in the session's mode,
+    with or without add-path): no LLGR stale period, a consistent initial snapshot, every delivered
+    change admissible for the view, every soft reset run on a snapshot of the view's destinations,
+    no policy change left without its soft reset, and at the end a consistent RIB snapshot whose
+    paths (best paths, for a session without add-path) are the view's and whose prefixes are
+    announced by some source. -/
 def okRun (c : Case01) : Bool :=
-  decide (c.sess.max = 1) && noLlgr c.ops &&
-  snapshotB (snapshotOf c.sess (rib0Of c).1) &&
+  noLlgr c.ops &&
+  snapChk c.sess.max (snapshotOf c.sess (rib0Of c).1) &&
   (finalWG c).2.ok && !(finalWG c).2.stale &&
-  snapshotB (snapshotOf (finalWG c).1.st.sess (finalWG c).1.rib) &&
-  headsMatchB (finalWG c).2.V (snapshotOf (finalWG c).1.st.sess (finalWG c).1.rib) &&
+  snapChk c.sess.max (snapshotOf (finalWG c).1.st.sess (finalWG c).1.rib) &&
+  viewMatchChk c.sess.max (finalWG c).2.V (snapshotOf (finalWG c).1.st.sess (finalWG c).1.rib) &&
   (freshDump (finalWG c).1.st.sess (finalWG c).1.rib).all (fun r => (liveNetsOf c).contains r.net)
 
 theorem run01_eq (c : Case01) :
@@ -317,26 +462,24 @@ theorem run01_eq (c : Case01) :
   simp only [run01, finalWG, stepWG, fold_fst, world0, rib0Of]
 
 /-- two well-shaped mirrors that agree on every lookup pass the set comparison of the checker -/
-theorem check_of_get_eq (c : Case01) (o : Obs01)
-    (hf : MirrorOk o.final) (hd : MirrorOk o.dump)
-    (hget : ∀ net, Mirror.get o.final net 0 = Mirror.get o.dump net 0)
+theorem check_of_get_eqA (c : Case01) (o : Obs01)
+    (hf : MirrorOkA o.final) (hd : MirrorOkA o.dump)
+    (hget : ∀ net w, Mirror.get o.final net w = Mirror.get o.dump net w)
     (hlive : ∀ r ∈ o.dump, (liveNetsOf c).contains r.net = true) :
     Spec01.check c o = .ok := by
   have hsub1 : ∀ r ∈ o.final, r ∈ o.dump := by
     intro r hr
-    have h0 := (hf.2 r hr).1
-    have := get_of_mem o.final hf r hr
-    rw [h0, hget r.net] at this
+    have := get_of_memA o.final hf r hr
+    rw [hget r.net r.pid] at this
     exact (mem_of_get _ _ _ _ this).1
   have hsub2 : ∀ r ∈ o.dump, r ∈ o.final := by
     intro r hr
-    have h0 := (hd.2 r hr).1
-    have := get_of_mem o.dump hd r hr
-    rw [h0, ← hget r.net] at this
+    have := get_of_memA o.dump hd r hr
+    rw [← hget r.net r.pid] at this
     exact (mem_of_get _ _ _ _ this).1
-  have hself : ∀ (m : Mirror), MirrorOk m → ∀ r ∈ m, Spec01.sameRoute r r = true := by
+  have hself : ∀ (m : Mirror), MirrorOkA m → ∀ r ∈ m, Spec01.sameRoute r r = true := by
     intro m hm r hr
-    simp [Spec01.sameRoute, Spec01.sameKey, (hm.2 r hr).2]
+    simp [Spec01.sameRoute, Spec01.sameKey, hm.2 r hr]
   have hk : ∀ r : Route, Spec01.sameKey r r = true := by intro r; simp [Spec01.sameKey]
   have c1 : (o.final.any (fun r => !(liveNetsOf c).contains r.net)) = false := by
     rw [Bool.eq_false_iff]; intro h
@@ -365,55 +508,108 @@ theorem check_of_get_eq (c : Case01) (o : Obs01)
   have hl : (Spec01.liveAnn c.srcs (c.pre ++ c.ops) []).filterMap (fun x => (c.pfxs[x.2.1]?).map (·.1)) = liveNetsOf c := rfl
   simp only [hl, c1, c2, c3, c4, c5, Bool.false_eq_true, if_false, Bool.not_true]
 
+theorem mirrorOkA_of_ok (m : Mirror) (h : MirrorOk m) : MirrorOkA m := ⟨h.1, fun r hr => (h.2 r hr).2⟩
+
+/-- a mirror written by a session without add-path holds path id 0 only -/
+theorem get_nonzero (m : Mirror) (h : MirrorOk m) (net : Net) (w : Nat) (hw : w ≠ 0) : Mirror.get m net w = none := by
+  cases hg : Mirror.get m net w with
+  | none => rfl
+  | some r =>
+    have := mem_of_get m net w r hg
+    exact absurd ((h.2 r this.1).1 ▸ this.2.2).symm hw
+
 /-- **Master theorem**: the C01 reference checker accepts every run of the model whose computed
-    hypotheses hold. -/
+    hypotheses hold, for a session with or without add-path. -/
 theorem check_run_ok (c : Case01) (h : okRun c = true) : Spec01.check c (run01 c) = .ok := by
-  simp only [okRun, Bool.and_eq_true, decide_eq_true_eq, Bool.not_eq_true'] at h
-  obtain ⟨⟨⟨⟨⟨⟨⟨hm, _⟩, hs0⟩, hok⟩, hst⟩, hsF⟩, hheads⟩, hlive⟩ := h
-  -- the invariant holds initially
-  have S0 := sinv_establish c.sess hm (rib0Of c).1 (snapshotB_sound hs0)
-  have J0 : J (world0 c) ⟨viewOf (snapshotOf c.sess (rib0Of c).1), true, false⟩ := by
-    intro _
-    exact ⟨rfl, fun _ => c.sess.exp, S0, fun _ x _ => by simp [world0, establish]⟩
-  -- and after the whole run, final delivery included
-  have J1 := run_inv_WG c hm c.ops (world0 c, ⟨viewOf (snapshotOf c.sess (rib0Of c).1), true, false⟩) J0
-  have J2 := step_inv c hm _ _ J1 (.deliver (c.ops.foldl (stepWG c) (world0 c, ⟨viewOf (snapshotOf c.sess (rib0Of c).1), true, false⟩)).1.queue.length)
-  have J2' : J (finalWG c).1 (finalWG c).2 := J2
-  obtain ⟨_, E, S, hcur⟩ := J2' hok
-  have hcur' := hcur hst
-  -- the two mirrors
-  have hfin := sinv_flush S
-  have hmax : (finalWG c).1.st.sess.max = 1 := S.plain
-  have hsnapF := snapshotB_sound hsF
-  have Sd := sinv_establish (finalWG c).1.st.sess hmax (finalWG c).1.rib hsnapF
-  have hdump := sinv_flush Sd
-  rw [run01_eq]
-  apply check_of_get_eq
-  · have := hfin.mok; simpa [mbOf, SessState.flush, PendingTx.drain] using this
-  · have := hdump.mok
-    simpa [mbOf, SessState.flush, PendingTx.drain, freshDump] using this
-  · intro net
-    show Mirror.get (finalWG c).1.st.flush.mirror net 0 =
-      Mirror.get (freshDump (finalWG c).1.st.flush.sess (finalWG c).1.rib) net 0
-    have e1 := converged S net
-    have e2 : Mirror.get (freshDump (finalWG c).1.st.sess (finalWG c).1.rib) net 0 =
-        wantRoute (finalWG c).1.st.sess.exp (viewOf (snapshotOf (finalWG c).1.st.sess (finalWG c).1.rib)) net 0 :=
-      converged Sd net
-    have hsess : (finalWG c).1.st.flush.sess = (finalWG c).1.st.sess := rfl
-    rw [hsess, e1, e2]
-    have hE : wantRoute (E net) (finalWG c).2.V net 0 = wantRoute (finalWG c).1.st.sess.exp (finalWG c).2.V net 0 := by
-      cases hf : (finalWG c).2.V.find net with
-      | none =>
-        rw [wantRoute_absent _ (S.inv.mode.2.2 net) _ _ hf, wantRoute_absent _ (by rw [exp_max]; exact hmax) _ _ hf]
-      | some x =>
-        have hxm := View.find_mem _ net x hf
-        have := hcur' x hxm.1
-        rw [hxm.2] at this; rw [this]
-    rw [hE]
-    exact wantRoute_head _ hmax _ _ net (headsMatchB_sound S.inv.vwf hheads net)
-  · intro r hr
+  simp only [okRun, Bool.and_eq_true, Bool.not_eq_true'] at h
+  obtain ⟨⟨⟨⟨⟨⟨_, hs0⟩, hok⟩, hst⟩, hsF⟩, hview⟩, hlive⟩ := h
+  have hlive' : ∀ r ∈ freshDump (finalWG c).1.st.flush.sess (finalWG c).1.rib, (liveNetsOf c).contains r.net = true := by
+    intro r hr
     have hsess : (finalWG c).1.st.flush.sess = (finalWG c).1.st.sess := rfl
     simp only [hsess] at hr
     exact (List.all_eq_true.mp hlive) r hr
+  -- the invariant holds initially
+  have J0 : J c.sess.max (world0 c) ⟨viewOf (snapshotOf c.sess (rib0Of c).1), true, false⟩ := by
+    intro _
+    refine ⟨rfl, rfl, ?_⟩
+    by_cases hm : c.sess.max = 1
+    · left
+      simp only [snapChk, hm, if_true] at hs0
+      exact ⟨hm, fun _ => c.sess.exp, sinv_establish c.sess hm (rib0Of c).1 (snapshotB_sound hs0),
+        fun _ x _ => by simp [world0, establish]⟩
+    · right
+      simp only [snapChk, hm, if_false] at hs0
+      exact ⟨hm, fun _ _ => c.sess.exp, sinv_establishA c.sess hm (rib0Of c).1 (snapshotAB_sound hs0),
+        fun _ x _ _ => by simp [world0, establish]⟩
+  -- and after the whole run, final delivery included
+  have J1 := run_inv_WG c c.ops (world0 c, ⟨viewOf (snapshotOf c.sess (rib0Of c).1), true, false⟩) J0
+  have J2 := step_inv c _ _ J1 (.deliver (c.ops.foldl (stepWG c) (world0 c, ⟨viewOf (snapshotOf c.sess (rib0Of c).1), true, false⟩)).1.queue.length)
+  have J2' : J c.sess.max (finalWG c).1 (finalWG c).2 := J2
+  rw [run01_eq]
+  clear J2 J1 J0
+  generalize finalWG c = W at *
+  obtain ⟨_, hmax, hmode⟩ := J2' hok
+  have hsess : W.1.st.flush.sess = W.1.st.sess := rfl
+  rcases hmode with ⟨hm, E, S, hcur⟩ | ⟨hm, E, S, hcur⟩
+  · -- session without add-path
+    have hcur' := hcur hst
+    simp only [snapChk, viewMatchChk, hm, if_true] at hsF hview
+    have hmax1 : W.1.st.sess.max = 1 := hmax.trans hm
+    have hfin := sinv_flush S
+    have Sd := sinv_establish W.1.st.sess hmax1 W.1.rib (snapshotB_sound hsF)
+    have hdump := sinv_flush Sd
+    have hokF : MirrorOk W.1.st.flush.mirror := by
+      have := hfin.mok; simpa [mbOf, SessState.flush, PendingTx.drain] using this
+    have hokD : MirrorOk (freshDump W.1.st.flush.sess W.1.rib) := by
+      have := hdump.mok
+      simpa [mbOf, SessState.flush, PendingTx.drain, freshDump] using this
+    apply check_of_get_eqA
+    · exact mirrorOkA_of_ok _ hokF
+    · exact mirrorOkA_of_ok _ hokD
+    rotate_left
+    · exact hlive'
+    intro net w
+    by_cases hw : w = 0
+    · subst hw
+      show Mirror.get W.1.st.flush.mirror net 0 =
+        Mirror.get (freshDump W.1.st.flush.sess W.1.rib) net 0
+      have e1 := converged S net
+      have e2 : Mirror.get (freshDump W.1.st.sess W.1.rib) net 0 =
+          wantRoute W.1.st.sess.exp (viewOf (snapshotOf W.1.st.sess W.1.rib)) net 0 :=
+        converged Sd net
+      rw [hsess, e1, e2]
+      have hE : wantRoute (E net) W.2.V net 0 = wantRoute W.1.st.sess.exp W.2.V net 0 := by
+        cases hf : W.2.V.find net with
+        | none =>
+          rw [wantRoute_absent _ (S.inv.mode.2.2 net) _ _ hf, wantRoute_absent _ (by rw [exp_max]; exact hmax1) _ _ hf]
+        | some x =>
+          have hxm := View.find_mem _ net x hf
+          have := hcur' x hxm.1
+          rw [hxm.2] at this; rw [this]
+      rw [hE]
+      exact wantRoute_head _ hmax1 _ _ net (headsMatchB_sound S.inv.vwf hview net)
+    · show Mirror.get W.1.st.flush.mirror net w =
+        Mirror.get (freshDump W.1.st.flush.sess W.1.rib) net w
+      rw [get_nonzero _ hokF net w hw, get_nonzero _ hokD net w hw]
+  · -- add-path session
+    have hcur' := hcur hst
+    simp only [snapChk, viewMatchChk, hm, if_false] at hsF hview
+    have hmaxA : W.1.st.sess.max ≠ 1 := by rw [hmax]; exact hm
+    have Sd := sinv_establishA W.1.st.sess hmaxA W.1.rib (snapshotAB_sound hsF)
+    apply check_of_get_eqA
+    · exact flush_mirrorOkA S
+    · exact flush_mirrorOkA Sd
+    rotate_left
+    · exact hlive'
+    · intro net w
+      have e1 := convergedA S net w
+      have e2 := fresh_dumpA W.1.st.sess hmaxA W.1.rib (snapshotAB_sound hsF) net w
+      have e3 := wantA_current E W.2.V W.1.st.sess.exp S.inv.ap
+        (fun n x => (S.inv.winE n x).1) hcur' net w
+      have e4 : wantRouteA W.1.st.sess.exp W.2.V net w =
+          wantRouteA W.1.st.sess.exp (viewOf (snapshotOf W.1.st.sess W.1.rib)) net w := by
+        simp only [wantRouteA]
+        rw [pathsMatchB_sound S.inv.vwf hview net]
+      exact (e1.trans (e3.trans e4)).trans e2.symm
 
 end Rbgp.Export.Conv
